@@ -12,7 +12,11 @@ package main
 import (
 	"encoding/json"
 	"fmt"
+	"go/ast"
+	"go/parser"
+	"go/token"
 	"math/big"
+	"path/filepath"
 	"os"
 	"strings"
 
@@ -365,6 +369,73 @@ func boundaryList(p *pairfx.Pair, n *chainfx.Node, capGas uint64, delta int64) [
 	return out
 }
 
+// proposeFact extracts from /repo's current blockchain.go whether ProposeBlock re-applies the kept list to a clean check
+// state when filterTxs dropped a candidate: an `if len(<kept>) < len(<candidates>)` after the filterTxs call whose body
+// takes a new ForCheck state and calls processTxs.
+func proposeFact() (string, error) {
+	repo := os.Getenv("VERIF_REPO")
+	if repo == "" {
+		repo = "/repo"
+	}
+	fset := token.NewFileSet()
+	f, err := parser.ParseFile(fset, filepath.Join(repo, "blockchain/blockchain.go"), nil, 0)
+	if err != nil {
+		return "", err
+	}
+	res := "no"
+	found := false
+	for _, d := range f.Decls {
+		fd, ok := d.(*ast.FuncDecl)
+		if !ok || fd.Name.Name != "ProposeBlock" || fd.Body == nil {
+			continue
+		}
+		found = true
+		sawFilter := false
+		ast.Inspect(fd.Body, func(n ast.Node) bool {
+			switch x := n.(type) {
+			case *ast.CallExpr:
+				if se, ok := x.Fun.(*ast.SelectorExpr); ok && se.Sel.Name == "filterTxs" {
+					sawFilter = true
+				}
+			case *ast.IfStmt:
+				be, ok := x.Cond.(*ast.BinaryExpr)
+				if !ok || be.Op != token.LSS || !sawFilter {
+					return true
+				}
+				isLen := func(e ast.Expr) bool {
+					c, ok := e.(*ast.CallExpr)
+					if !ok {
+						return false
+					}
+					id, ok := c.Fun.(*ast.Ident)
+					return ok && id.Name == "len"
+				}
+				if !isLen(be.X) || !isLen(be.Y) {
+					return true
+				}
+				forCheck, process := false, false
+				ast.Inspect(x.Body, func(m ast.Node) bool {
+					if c, ok := m.(*ast.CallExpr); ok {
+						if se, ok := c.Fun.(*ast.SelectorExpr); ok {
+							forCheck = forCheck || se.Sel.Name == "ForCheck"
+							process = process || se.Sel.Name == "processTxs"
+						}
+					}
+					return true
+				})
+				if forCheck && process {
+					res = "yes"
+				}
+			}
+			return true
+		})
+	}
+	if !found {
+		return "", fmt.Errorf("ProposeBlock not found in blockchain/blockchain.go")
+	}
+	return res, nil
+}
+
 func keptHashes(l []*types.Transaction) []string {
 	r := make([]string, len(l))
 	for i, tx := range l {
@@ -453,6 +524,16 @@ func init() {
 			}
 			return c02run(c, wrap.Replay.Case)
 		}
+		pf, err := proposeFact()
+		if err != nil {
+			return err
+		}
+		c.Line("new 0 1", "ok")
+		impl := "matches-proposeD"
+		if pf != "yes" {
+			impl = "matches-proposeDAsFound"
+		}
+		c.Line("fact propose-rederives-on-clean-state "+pf, impl)
 		c.Rep.Rule = "two real replicas, histories over >=2 epochs incl. ceremonies; per block: candidate lists = A's pool list and an adversarial list (shuffled, stale, future-nonce, duplicate, conflicting: overspend chains, kill+later txs, double invitations, delegation/online flapping, payloads crossing the gas cap); evaluation = one candidate list through real filterTxs + processTxs + reference; distinct non-trivial = lists with >=2 candidates of which at least one was skipped"
 		nh := c.Scale(4, 120)
 		for i := 0; i < nh; i++ {
